@@ -264,6 +264,52 @@ def run(P, R, tier):
         R.check(ok, 'C11.h', tw, rebinds[0] if rebinds else c, 'the frame handed to dask\'s to_parquet is the caller\'s frame, unchanged',
                 f'`{norm(rebinds[0]) if rebinds else norm(a0)}`: the frame that is written is not the caller\'s frame (partitions or rows are selected before writing): rows of the dropped '
                 'partitions -- index, other columns, missing geometries -- are silently not written', construct='writer writes the given frame')
+    # C11.i: the pandas writer receives the caller's `df`, `index` and `compression` as given.  Deciding `index=` from the look of the index (e.g. "a default
+    # RangeIndex needs no storing") loses what the index carries besides its values: a named positional index comes back unnamed.
+    wp = P.func('spatialpandas.io.parquet', 'to_parquet')
+    pcalls = [c for c in astq.own_calls(wp) if norm(c.func).split('.')[-1] in ('pd_to_parquet', 'to_parquet') and (c.keywords or c.args)]
+    R.floor('C11.i', 'pandas to_parquet calls in to_parquet', len(pcalls), 1)
+    for c in pcalls:
+        for pname in ('df', 'index', 'compression'):
+            if pname not in wp.params:
+                continue
+            v = astq.arg_of(c, kw=pname) if pname != 'df' else (astq.arg_of(c, kw='df') or (c.args[0] if c.args else None))
+            rebound = [a for a in astq.assignments(wp, pname)]
+            ok = isinstance(v, ast.Name) and v.id == pname and not rebound
+            R.check(ok, 'C11.i', wp, c, f'`{pname}` reaches the pandas writer as the caller gave it',
+                    f'`{pname}` does not reach the pandas writer as given (' + (f'it is re-assigned in to_parquet' if rebound else f'the writer receives `{norm(v) if v is not None else None}`') +
+                    '): what is stored no longer depends on the caller\'s frame and arguments alone - e.g. an index that "looks default" is not written and loses its name',
+                    construct=f'to_parquet: {pname} passed through')
+    # C11.j: the column ORDER of a projected read is the order of the request.  A list built by filtering some other column sequence by membership in `columns`
+    # (`[c for c in meta.columns if c in columns]`) has the file's order; the per-piece reads return the requested order, so meta and partitions disagree.
+    nproj = 0
+    for g in P.mods['spatialpandas.io.parquet'].funcs.values():
+        if 'columns' not in g.params or isinstance(g.node, ast.Lambda):
+            continue
+        for lc in [x for x in walk_own(g.node) if isinstance(x, ast.ListComp) and len(x.generators) == 1]:
+            gen = lc.generators[0]
+            if not (isinstance(lc.elt, ast.Name) and isinstance(gen.target, ast.Name) and lc.elt.id == gen.target.id):
+                continue
+            member = [t for t in gen.ifs if isinstance(t, ast.Compare) and len(t.ops) == 1 and isinstance(t.ops[0], ast.In) and 'columns' in astq.sources(g, t.comparators[0])
+                      and isinstance(t.left, ast.Name) and t.left.id == gen.target.id]
+            it_ = gen.iter
+            while isinstance(it_, ast.Call) and norm(it_.func) in ('list', 'tuple', 'iter') and len(it_.args) == 1:
+                it_ = it_.args[0]
+            if isinstance(it_, ast.Name) and it_.id != 'columns':
+                t_ = astq.trace(g, it_)
+                it_ = t_ if isinstance(t_, ast.AST) else it_
+                while isinstance(it_, ast.Call) and norm(it_.func) in ('list', 'tuple', 'iter') and len(it_.args) == 1:
+                    it_ = it_.args[0]
+            over_request = isinstance(it_, ast.Name) and it_.id == 'columns'
+            if not member and not over_request:
+                continue
+            nproj += 1
+            R.check(over_request, 'C11.j', g, lc, 'a projected column list iterates over the requested `columns` (request order)',
+                    f'`{norm(lc)}` keeps the columns that are in `columns` but in the order of `{norm(gen.iter)}`: the collection\'s meta (columns, dtypes, active geometry) is in file order while '
+                    'every partition comes back in the requested order', construct=f'{g.name}: projection order')
+    R.floor('C11.j', 'projection lists derived from `columns`', nproj, 1)
+    from rules import common as _cm
+    _cm.array_token(P, R, 'C11.k')
     # no global re-sort of the combined list afterwards
     plist = None
     for lp in astq.own_nodes(pr, ast.For):
